@@ -1,0 +1,357 @@
+//go:build verif
+
+package gobptree
+
+// Read-only structural snapshot of a tree, for external verification
+// harnesses. This file is compiled only with `-tags verif`; it adds no
+// behaviour to the package and touches no existing declaration.
+
+import (
+	"sync"
+)
+
+const verifMaxDepth = 80
+
+// VerifNode is a dump of one node. Self and Next are the node pointers
+// themselves (usable as map keys for identity); Mutex points at the node's
+// mutex.
+type VerifNode struct {
+	Self      interface{}
+	Internal  bool
+	Truncated bool
+	Runts     []interface{}
+	Values    []interface{}
+	Children  []*VerifNode
+	Next      interface{}
+	Mutex     *sync.Mutex
+}
+
+// ---- Int32 ----
+
+func verifDumpint32Node(n int32Node, depth int) *VerifNode {
+	if n == nil {
+		return nil
+	}
+	if depth > verifMaxDepth {
+		return &VerifNode{Truncated: true}
+	}
+	switch tv := n.(type) {
+	case *int32InternalNode:
+		if tv == nil {
+			return nil
+		}
+		out := &VerifNode{Self: tv, Internal: true, Mutex: &tv.mutex}
+		for _, r := range tv.runts {
+			out.Runts = append(out.Runts, r)
+		}
+		for _, c := range tv.children {
+			out.Children = append(out.Children, verifDumpint32Node(c, depth+1))
+		}
+		return out
+	case *int32LeafNode:
+		if tv == nil {
+			return nil
+		}
+		out := &VerifNode{Self: tv, Mutex: &tv.mutex}
+		for _, r := range tv.runts {
+			out.Runts = append(out.Runts, r)
+		}
+		out.Values = append(out.Values, tv.values...)
+		if tv.next != nil {
+			out.Next = tv.next
+		}
+		return out
+	}
+	return &VerifNode{Truncated: true}
+}
+
+// VerifSnapshot returns a read-only structural dump of the tree. It takes no
+// locks and must only be called while no operation is in flight.
+func (t *Int32Tree) VerifSnapshot() *VerifNode { return verifDumpint32Node(t.root, 0) }
+
+// VerifOrder returns the order the tree was created with.
+func (t *Int32Tree) VerifOrder() int { return t.order }
+
+// VerifLeaf returns the identity and mutex of the leaf the cursor holds, or
+// nil, nil when it holds none.
+func (c *Int32Cursor) VerifLeaf() (interface{}, *sync.Mutex) {
+	if c.l == nil {
+		return nil, nil
+	}
+	return c.l, &c.l.mutex
+}
+
+// ---- Int64 ----
+
+func verifDumpint64Node(n int64Node, depth int) *VerifNode {
+	if n == nil {
+		return nil
+	}
+	if depth > verifMaxDepth {
+		return &VerifNode{Truncated: true}
+	}
+	switch tv := n.(type) {
+	case *int64InternalNode:
+		if tv == nil {
+			return nil
+		}
+		out := &VerifNode{Self: tv, Internal: true, Mutex: &tv.mutex}
+		for _, r := range tv.runts {
+			out.Runts = append(out.Runts, r)
+		}
+		for _, c := range tv.children {
+			out.Children = append(out.Children, verifDumpint64Node(c, depth+1))
+		}
+		return out
+	case *int64LeafNode:
+		if tv == nil {
+			return nil
+		}
+		out := &VerifNode{Self: tv, Mutex: &tv.mutex}
+		for _, r := range tv.runts {
+			out.Runts = append(out.Runts, r)
+		}
+		out.Values = append(out.Values, tv.values...)
+		if tv.next != nil {
+			out.Next = tv.next
+		}
+		return out
+	}
+	return &VerifNode{Truncated: true}
+}
+
+// VerifSnapshot returns a read-only structural dump of the tree. It takes no
+// locks and must only be called while no operation is in flight.
+func (t *Int64Tree) VerifSnapshot() *VerifNode { return verifDumpint64Node(t.root, 0) }
+
+// VerifOrder returns the order the tree was created with.
+func (t *Int64Tree) VerifOrder() int { return t.order }
+
+// VerifLeaf returns the identity and mutex of the leaf the cursor holds, or
+// nil, nil when it holds none.
+func (c *Int64Cursor) VerifLeaf() (interface{}, *sync.Mutex) {
+	if c.l == nil {
+		return nil, nil
+	}
+	return c.l, &c.l.mutex
+}
+
+// ---- Uint32 ----
+
+func verifDumpuint32Node(n uint32Node, depth int) *VerifNode {
+	if n == nil {
+		return nil
+	}
+	if depth > verifMaxDepth {
+		return &VerifNode{Truncated: true}
+	}
+	switch tv := n.(type) {
+	case *uint32InternalNode:
+		if tv == nil {
+			return nil
+		}
+		out := &VerifNode{Self: tv, Internal: true, Mutex: &tv.mutex}
+		for _, r := range tv.runts {
+			out.Runts = append(out.Runts, r)
+		}
+		for _, c := range tv.children {
+			out.Children = append(out.Children, verifDumpuint32Node(c, depth+1))
+		}
+		return out
+	case *uint32LeafNode:
+		if tv == nil {
+			return nil
+		}
+		out := &VerifNode{Self: tv, Mutex: &tv.mutex}
+		for _, r := range tv.runts {
+			out.Runts = append(out.Runts, r)
+		}
+		out.Values = append(out.Values, tv.values...)
+		if tv.next != nil {
+			out.Next = tv.next
+		}
+		return out
+	}
+	return &VerifNode{Truncated: true}
+}
+
+// VerifSnapshot returns a read-only structural dump of the tree. It takes no
+// locks and must only be called while no operation is in flight.
+func (t *Uint32Tree) VerifSnapshot() *VerifNode { return verifDumpuint32Node(t.root, 0) }
+
+// VerifOrder returns the order the tree was created with.
+func (t *Uint32Tree) VerifOrder() int { return t.order }
+
+// VerifLeaf returns the identity and mutex of the leaf the cursor holds, or
+// nil, nil when it holds none.
+func (c *Uint32Cursor) VerifLeaf() (interface{}, *sync.Mutex) {
+	if c.l == nil {
+		return nil, nil
+	}
+	return c.l, &c.l.mutex
+}
+
+// ---- Uint64 ----
+
+func verifDumpuint64Node(n uint64Node, depth int) *VerifNode {
+	if n == nil {
+		return nil
+	}
+	if depth > verifMaxDepth {
+		return &VerifNode{Truncated: true}
+	}
+	switch tv := n.(type) {
+	case *uint64InternalNode:
+		if tv == nil {
+			return nil
+		}
+		out := &VerifNode{Self: tv, Internal: true, Mutex: &tv.mutex}
+		for _, r := range tv.runts {
+			out.Runts = append(out.Runts, r)
+		}
+		for _, c := range tv.children {
+			out.Children = append(out.Children, verifDumpuint64Node(c, depth+1))
+		}
+		return out
+	case *uint64LeafNode:
+		if tv == nil {
+			return nil
+		}
+		out := &VerifNode{Self: tv, Mutex: &tv.mutex}
+		for _, r := range tv.runts {
+			out.Runts = append(out.Runts, r)
+		}
+		out.Values = append(out.Values, tv.values...)
+		if tv.next != nil {
+			out.Next = tv.next
+		}
+		return out
+	}
+	return &VerifNode{Truncated: true}
+}
+
+// VerifSnapshot returns a read-only structural dump of the tree. It takes no
+// locks and must only be called while no operation is in flight.
+func (t *Uint64Tree) VerifSnapshot() *VerifNode { return verifDumpuint64Node(t.root, 0) }
+
+// VerifOrder returns the order the tree was created with.
+func (t *Uint64Tree) VerifOrder() int { return t.order }
+
+// VerifLeaf returns the identity and mutex of the leaf the cursor holds, or
+// nil, nil when it holds none.
+func (c *Uint64Cursor) VerifLeaf() (interface{}, *sync.Mutex) {
+	if c.l == nil {
+		return nil, nil
+	}
+	return c.l, &c.l.mutex
+}
+
+// ---- String ----
+
+func verifDumpstringNode(n stringNode, depth int) *VerifNode {
+	if n == nil {
+		return nil
+	}
+	if depth > verifMaxDepth {
+		return &VerifNode{Truncated: true}
+	}
+	switch tv := n.(type) {
+	case *stringInternalNode:
+		if tv == nil {
+			return nil
+		}
+		out := &VerifNode{Self: tv, Internal: true, Mutex: &tv.mutex}
+		for _, r := range tv.runts {
+			out.Runts = append(out.Runts, r)
+		}
+		for _, c := range tv.children {
+			out.Children = append(out.Children, verifDumpstringNode(c, depth+1))
+		}
+		return out
+	case *stringLeafNode:
+		if tv == nil {
+			return nil
+		}
+		out := &VerifNode{Self: tv, Mutex: &tv.mutex}
+		for _, r := range tv.runts {
+			out.Runts = append(out.Runts, r)
+		}
+		out.Values = append(out.Values, tv.values...)
+		if tv.next != nil {
+			out.Next = tv.next
+		}
+		return out
+	}
+	return &VerifNode{Truncated: true}
+}
+
+// VerifSnapshot returns a read-only structural dump of the tree. It takes no
+// locks and must only be called while no operation is in flight.
+func (t *StringTree) VerifSnapshot() *VerifNode { return verifDumpstringNode(t.root, 0) }
+
+// VerifOrder returns the order the tree was created with.
+func (t *StringTree) VerifOrder() int { return t.order }
+
+// VerifLeaf returns the identity and mutex of the leaf the cursor holds, or
+// nil, nil when it holds none.
+func (c *StringCursor) VerifLeaf() (interface{}, *sync.Mutex) {
+	if c.l == nil {
+		return nil, nil
+	}
+	return c.l, &c.l.mutex
+}
+
+// ---- Comparable ----
+
+func verifDumpcomparableNode(n comparableNode, depth int) *VerifNode {
+	if n == nil {
+		return nil
+	}
+	if depth > verifMaxDepth {
+		return &VerifNode{Truncated: true}
+	}
+	switch tv := n.(type) {
+	case *comparableInternalNode:
+		if tv == nil {
+			return nil
+		}
+		out := &VerifNode{Self: tv, Internal: true, Mutex: &tv.mutex}
+		for _, r := range tv.runts {
+			out.Runts = append(out.Runts, r)
+		}
+		for _, c := range tv.children {
+			out.Children = append(out.Children, verifDumpcomparableNode(c, depth+1))
+		}
+		return out
+	case *comparableLeafNode:
+		if tv == nil {
+			return nil
+		}
+		out := &VerifNode{Self: tv, Mutex: &tv.mutex}
+		for _, r := range tv.runts {
+			out.Runts = append(out.Runts, r)
+		}
+		out.Values = append(out.Values, tv.values...)
+		if tv.next != nil {
+			out.Next = tv.next
+		}
+		return out
+	}
+	return &VerifNode{Truncated: true}
+}
+
+// VerifSnapshot returns a read-only structural dump of the tree. It takes no
+// locks and must only be called while no operation is in flight.
+func (t *ComparableTree) VerifSnapshot() *VerifNode { return verifDumpcomparableNode(t.root, 0) }
+
+// VerifOrder returns the order the tree was created with.
+func (t *ComparableTree) VerifOrder() int { return t.order }
+
+// VerifLeaf returns the identity and mutex of the leaf the cursor holds, or
+// nil, nil when it holds none.
+func (c *ComparableCursor) VerifLeaf() (interface{}, *sync.Mutex) {
+	if c.l == nil {
+		return nil, nil
+	}
+	return c.l, &c.l.mutex
+}
